@@ -200,6 +200,7 @@ func (wb *workerBinder[T]) WithDistributedQueue(dq IDistributedQueue) Distribute
 	// The subscription must be in place before the worker takes its first look at the queue:
 	// an item enqueued while the queue is being bound is then either seen by that look or announced.
 	defer wb.start()
+	defer vhook("bind.sub")
 	defer dq.Subscribe(wb.handleQueueSubscription)
 	defer wb.queues.Register(dq)
 
@@ -209,6 +210,7 @@ func (wb *workerBinder[T]) WithDistributedQueue(dq IDistributedQueue) Distribute
 func (wb *workerBinder[T]) WithDistributedPriorityQueue(dpq IDistributedPriorityQueue) DistributedPriorityQueue[T] {
 	// see WithDistributedQueue: subscribe first, then start
 	defer wb.start()
+	defer vhook("bind.sub")
 	defer dpq.Subscribe(wb.handleQueueSubscription)
 	defer wb.queues.Register(dpq)
 
